@@ -47,9 +47,40 @@ func runC11(c *Ctx) {
 
 	// ------------------------------------------------------------------ (1)
 	r1 := c.Rule("drain-before-wait", "in the run loop a call of the drain function (which, for each of stdOutDone and stdErrDone that is non-nil, blocks until that channel is closed or its context expires) precedes command.Wait() on every path; every reader closes its done parameter on every path; the starter stores a fresh channel into stdOutDone/stdErrDone and passes that same channel to the reader before the launch")
+	// a receive from the field, directly or in a helper that gets the field's channel as an argument and
+	// receives from that parameter
 	isDoneRecv := func(fld *types.Var) Site {
 		return Site{Name: "<-" + fld.Name(), Instr: func(in ssa.Instruction) bool {
-			return IsRecvFrom(in, func(ch ssa.Value) bool { return PathOf(ch).LastField() == fld })
+			if IsRecvFrom(in, func(ch ssa.Value) bool { return PathOf(ch).LastField() == fld }) {
+				return true
+			}
+			ci, ok := in.(ssa.CallInstruction)
+			if !ok {
+				return false
+			}
+			if _, isGo := in.(*ssa.Go); isGo {
+				return false
+			}
+			callee := ci.Common().StaticCallee()
+			if callee == nil || len(callee.Blocks) == 0 {
+				return false
+			}
+			for i, a := range ci.Common().Args {
+				if PathOf(a).LastField() != fld || i >= len(callee.Params) {
+					continue
+				}
+				prm := callee.Params[i]
+				found := false
+				AllInstrs(callee, func(x ssa.Instruction) {
+					if IsRecvFrom(x, func(ch ssa.Value) bool { return ch == ssa.Value(prm) }) {
+						found = true
+					}
+				})
+				if found {
+					return true
+				}
+			}
+			return false
 		}}
 	}
 	var drains []*ssa.Function
@@ -338,8 +369,23 @@ func runC11(c *Ctx) {
 		}
 		_ = pclogT
 		// the collector drains until the channel is closed
-		coll := p.TryMethod("pclog", "PCLog", "runCollector")
-		if coll != nil {
+		// the collector: the function that consumes the event channel
+		var coll *ssa.Function
+		for _, f := range p.FuncsOfPkg("pclog") {
+			AllInstrs(f, func(in ssa.Instruction) {
+				switch x := in.(type) {
+				case *ssa.Range:
+					if PathOf(x.X).LastField() == fChan {
+						coll = f
+					}
+				case *ssa.UnOp:
+					if x.Op == token.ARROW && PathOf(x.X).LastField() == fChan {
+						coll = f
+					}
+				}
+			})
+		}
+		if c.Check(coll != nil, r5, "collector-found", "", "collector found", "no function consumes the log event channel") {
 			c.Check(p.Deep(MethodOnField("wg.Done", fWg, wgMethod(p, "Done"))).Always(coll), r5, "collector-done", FirstPos(p, coll), "the collector signals completion", "the collector does not signal the WaitGroup on every exit")
 		}
 	}
